@@ -25,7 +25,7 @@
    jumps, builds anywhere. *)
 From IV Require Import Base.Word Model.Unwrapper Model.TwccChunk Model.ArrivalMap Model.TwccRecorder
   Proofs.TwccChunkProofs Proofs.TwccFeedbackProofs Proofs.ArrivalMapProofs Proofs.ArrivalMapRefine
-  Proofs.TwccRecorderProofs Check.C05Check Proofs.TwccTruthProofs Proofs.TwccBuildMore Proofs.TwccOracleSpec.
+  Proofs.TwccRecorderProofs Check.C05Check Proofs.TwccTruthProofs Proofs.TwccBuildMore Proofs.TwccOracleSpec Proofs.TwccCorrespondSpec Proofs.ArrivalMapPow2.
 From Coq Require Import Permutation.
 
 (* ---- the ghost state is the oracle's ---- *)
@@ -193,3 +193,86 @@ Theorem C05_model_meets_oracle_spec : forall sender ops, ops_nonneg ops ->
   hist_spec sender ost0 ops (rec_run sender rec_init ops).
 Proof. intros sender ops H. exact (model_meets_spec sender ops ost0 rec_init rec_ok_init st_rel_init H). Qed.
 Print Assumptions C05_model_meets_oracle_spec.
+
+(* codes 3 / 4 / 5 in Prop: every packet of an accepted history has the wire
+   form of the property statement ([pkt_form]: marshalled length = 4 *
+   (header Length + 1) = content rounded to 32 bits = number of bytes, padding
+   bit; the chunks expand to exactly count statuses in {0,1,2} plus < 14 zero
+   padding symbols with no chunk beyond the count; exactly one delta per
+   received status, of the type the status names, a multiple of 250 us that
+   fits its wire size).  No scope hypothesis. *)
+Theorem C05_oracle_sound_wire_form : forall sender ops outs,
+  rec_spec_code (sender, ops, outs) = 0%nat -> Forall (Forall pkt_form) outs.
+Proof. exact (fun sender ops outs H => oracle_sound_form sender ops ost0 outs H). Qed.
+Print Assumptions C05_oracle_sound_wire_form.
+
+(* non-vacuity of C05_oracle_sound / C05_oracle_sound_wire_form: a history with
+   the packet the real implementation returned for it (bytes included, taken
+   from a generated case) is accepted by the oracle *)
+Example C05_oracle_accepts_nonvacuous :
+  let ops := [Rec 1000 38135 1222; Build] in
+  let outs := [[Pkt 52711 1000 38135 1 0 0 5 1 24 [(0, [1; 1])] [(1, 1250)]
+                    [175; 205; 0; 5; 0; 0; 205; 231; 0; 0; 3; 232; 148; 247; 0; 1; 0; 0; 0; 0; 32; 1; 5; 1]]] in
+  ops_nonneg ops /\ rec_spec_code (52711, ops, outs) = 0%nat.
+Proof. cbv zeta. split; [cbn; lia|vm_compute; reflexivity]. Qed.
+Print Assumptions C05_oracle_accepts_nonvacuous.
+
+(* ---- what "no mismatch" of the correspondence check means ---- *)
+(* if the packets an implementation returned for a history agree with the
+   model's in every field rec_mismatches compares (rec_model_ok = true), they
+   satisfy hist_spec: the model's packets do (C05_model_meets_oracle_spec) and
+   hist_spec only reads compared fields.  Together with C05_oracle_sound the
+   two checkers of bin/check C05 each IMPLY the Prop-level property for the
+   implementation's own packets, by two independent routes. *)
+Theorem C05_correspondence_implies_spec : forall sender ops outs, ops_nonneg ops ->
+  rec_model_ok (sender, ops, outs) = true -> hist_spec sender ost0 ops outs.
+Proof. exact model_ok_spec. Qed.
+Print Assumptions C05_correspondence_implies_spec.
+
+(* the ghost frontier and "recorded since the previous feedback": a Record
+   leaves the frontier S at or below the number just recorded and at or below
+   every number it was at or below before (numbers inside the window), so every
+   arrival recorded since the previous build and still retained is at or after
+   S - and C05_build says everything retained at or after S is reported by the
+   next build *)
+Theorem C05_frontier_covers_new_records : forall g U t,
+  let g' := truth_record g U t in
+  exists s', t_S g' = Some s' /\
+    forall k, (k = U \/ exists s, t_S g = Some s /\ s <= k) -> t_lo g' <= k -> s' <= k.
+Proof. exact truth_frontier. Qed.
+Print Assumptions C05_frontier_covers_new_records.
+
+(* ---- 3. capacity of the concrete circular buffer ---- *)
+(* after EVERY sequence of AddPacket / RemoveOldPackets from the empty buffer
+   (no side condition) the capacity of the concrete model [cmap] is 0 (nothing
+   added yet) or a power of two between minCapacity = 2^7 and
+   maxNumberOfPackets = 2^15 (reallocate(128) first; adjustToSize only doubles
+   and halves, never below 128), and the valid range fits the buffer *)
+Theorem C05_capacity_power_of_two : forall os,
+  cm_cap (fold_left cm_step os cm_empty) = 0 \/
+  exists k, 7 <= k <= 15 /\ cm_cap (fold_left cm_step os cm_empty) = 2 ^ k.
+Proof. exact cm_cap_pow2. Qed.
+Print Assumptions C05_capacity_power_of_two.
+
+Theorem C05_capacity_after_first_add : forall os1 sn t os2,
+  exists k, 7 <= k <= 15 /\ cm_cap (fold_left cm_step (os1 ++ OpAdd sn t :: os2) cm_empty) = 2 ^ k.
+Proof. exact cm_cap_pow2_after_add. Qed.
+Print Assumptions C05_capacity_after_first_add.
+
+Theorem C05_range_fits_capacity : forall os,
+  cm_end (fold_left cm_step os cm_empty) - cm_begin (fold_left cm_step os cm_empty)
+  <= cm_cap (fold_left cm_step os cm_empty).
+Proof. exact cm_range_fits. Qed.
+Print Assumptions C05_range_fits_capacity.
+
+(* hence Go's index() "sn & (capacity-1)" (two's complement, negative sn
+   included) is the model's "sn mod capacity" in every reachable state *)
+Theorem C05_index_and_is_mod : forall k sn, 0 <= k -> Z.land sn (2 ^ k - 1) = sn mod 2 ^ k.
+Proof. exact pow2_index. Qed.
+Print Assumptions C05_index_and_is_mod.
+
+Theorem C05_index_land : forall os sn,
+  let c := fold_left cm_step os cm_empty in
+  cm_cap c <> 0 -> Z.to_nat (Z.land sn (cm_cap c - 1)) = cm_index c sn.
+Proof. exact cm_index_land. Qed.
+Print Assumptions C05_index_land.
